@@ -1,7 +1,9 @@
 """C04  Never more than `fanout` remote commands are in flight.
 
 proof:          lean/PdshVerif/Props/C04.lean (LTS of dsh()'s dispatcher/worker/condvar protocol, every
-                schedule, every number of spurious wake-ups; `while` variant bounded, `if` variant witness)
+                schedule, every number of spurious wake-ups; `while` variant bounded, `if` variant witness; section G:
+                the same for EVERY signalling discipline (Dsh/FanG.lean), incl. the witness that under `if` a wake-up
+                call made after the unlock breaks the bound without any spurious wake-up)
 correspondence: the unmodified dsh.c under the controlled scheduler (harness/sched) vs the same LTS,
                 compiled (`pdshmodel fan`): every event enabled, threadcount equal, enabled sets equal
 oracle:         monitors of the harness on observable events only: peak of (connects begun - teardowns
@@ -16,7 +18,9 @@ MANIFEST = dict(
     technique="Lean 4 proof (invariant of the fan-out LTS, all schedules incl. spurious wake-ups) + trace "
               "correspondence of the unmodified dsh.c under a controlled scheduler against the compiled LTS",
     text="Theorems in lean/PdshVerif/Props/C04.lean about the labelled transition system of dsh()'s dispatch loop, "
-         "worker epilogue and drain loop (Dsh/Fan.lean; the wait-for-room construct is a parameter: `if` as in the "
+         "worker epilogue and drain loop (Dsh/Fan.lean as pinned, Dsh/FanG.lean with the signalling discipline left "
+         "open -- wake-up call inside | after the critical section, signal | broadcast: section G, and the acceptor "
+         "runs FanG.step; the wait-for-room construct is a parameter: `if` as in the "
          "pinned source, `while` as repaired): in-flight <= fanout for every fanout >= 1, every N, every schedule and "
          "any number of spurious wake-ups (while variant), a decided counterexample for the `if` variant, and work "
          "conservation.  The unmodified dsh.c runs under a controlled scheduler (every pthread/libc call wrapped at "
